@@ -672,7 +672,7 @@ pub fn bad_req(_p: &Profile) -> BoxedStrategy<BadReq> {
         3 => (any::<bool>(), sel(BAD_IDS)).prop_map(|(delete, id)| BadReq::BadId { delete, id }),
         3 => (topic_http_safe(), sel(BAD_TTLS)).prop_map(|(topic, ttl)| BadReq::BadTtl { topic, ttl }),
         2 => (topic_http_safe(), sel(BAD_CTXS)).prop_map(|(topic, ctx)| BadReq::BadContext { topic, ctx }),
-        5 => (topic_http_safe(), 0u8..7, any::<bool>())
+        5 => (topic_http_safe(), 0u8..10, any::<bool>())
             .prop_map(|(topic, kind, with_body)| BadReq::BadMeta { topic, kind, with_body }),
         3 => (sel(BAD_READ_QUERIES), any::<bool>()).prop_map(|(q, sse)| BadReq::BadReadQuery { q, sse }),
         2 => (topic_http_safe(), sel(BAD_CTXS)).prop_map(|(topic, ctx)| BadReq::BadHeadContext { topic, ctx }),
@@ -2073,6 +2073,11 @@ impl Interp {
                     // invalid UTF-8 *inside* a JSON string literal: still not UTF-8
                     4 => b64(b"{\"k\":\"\xff\"}").into_bytes(),
                     5 => b64(b"{\"k\":\"ab\xe6\x97\"}").into_bytes(),
+                    // a header that is present but empty / blank / decodes to blank text: no JSON
+                    // document at all (not the same request as one without the header)
+                    7 => Vec::new(),
+                    8 => b"  ".to_vec(),
+                    9 => b64(b" ").into_bytes(),
                     _ => b64(b"[\"\xc3\x28\", 1]").into_bytes(),
                 };
                 let r = Req::new("POST", &format!("/{topic}")).header("xs-meta", &value);
